@@ -335,7 +335,7 @@ func anchorRanges(verif, prop string) map[string][][2]int {
 
 func runSweep(c *Ctx, spec *propSpec, seed int64) {
 	files := anchorFiles(c.Verif, spec.id)
-	muts := genMutants(c.Repo, files, anchorRanges(c.Verif, spec.id), 250, seed)
+	muts := genMutants(c.Repo, files, anchorRanges(c.Verif, spec.id), 150, seed)
 	if len(muts) == 0 {
 		return
 	}
